@@ -1,6 +1,7 @@
 package utils
 
 import (
+	"sync"
 	"sync/atomic"
 	"time"
 )
@@ -29,6 +30,10 @@ var (
 const length = int64(64)
 
 type Yeast struct {
+	// mu makes reading the clock, comparing with the previous value and updating
+	// the seed one step: without it two concurrent calls in the same millisecond
+	// could both take the "new millisecond" branch and return the same id.
+	mu   sync.Mutex
 	seed atomic.Int64
 	prev atomic.Value
 }
@@ -59,6 +64,9 @@ func (y *Yeast) Decode(str string) int64 {
 }
 
 func (y *Yeast) Yeast() string {
+	y.mu.Lock()
+	defer y.mu.Unlock()
+
 	now := y.Encode(time.Now().UnixMilli())
 
 	prev, _ := y.prev.Load().(string)
